@@ -96,7 +96,9 @@ class ImgStub(_DaArrayBase):
             nlo = z3.If(nlo > 0, nlo, z3.IntVal(0))
             nhi = z3.If(nhi < length.e, nhi, length.e)
             valid.append((_simpl(Sym(nlo)), _simpl(Sym(nhi))))
-        return ImgStub(shape, self.root, origin, valid, self.fill, self.root_shape)
+        out = ImgStub(shape, self.root, origin, valid, self.fill, self.root_shape)
+        out.numpy_like = self.numpy_like
+        return out
 
     # -- the reshape/sum pattern of acryo._utils.bin_image ------------------------------------
     def reshape(self, *shape):
@@ -115,7 +117,9 @@ class ImgStub(_DaArrayBase):
             vhi = z3.If(zint(hi) < zint(self.shape[ax]), zint(hi), zint(self.shape[ax]))
             valid.append((_simpl(Sym(vlo + zint(p0))), _simpl(Sym(vhi + zint(p0)))))
         fill = (mode, self)
-        return ImgStub(shape, self.root, origin, valid, fill, self.root_shape)
+        out = ImgStub(shape, self.root, origin, valid, fill, self.root_shape)
+        out.numpy_like = self.numpy_like
+        return out
 
 
 class _Reshaped:
